@@ -89,6 +89,7 @@ def run(prog: Program, L: Ledger) -> None:
     L.rule("P1", "every attribute/call on a user move (criteria) object in the drivers' code is a member of Move ∪ Serializable (Criteria ∪ Serializable)")
     L.rule("P2", "MonteCarlo.step: truthy move result ⇒ criteria.evaluate(context) then exactly save/revert; falsy ⇒ is_accepted None, no evaluate; history appended on every path")
     L.rule("P3", "accept path notifies stored moves: on_atoms_changed where the atom count can change, on_cell_changed where the cell can change")
+    L.rule("P5", "a stored move is executed: the scheduler offers every due move (due = step % interval == 0, nothing else) and places its forced slots — decided by C09's rules M1–M3 on MonteCarlo.yield_moves")
     L.rule("P4", "MonteCarlo.to_dict → MoveStorage.to_dict → move.to_dict() and criteria.to_dict() for every stored entry")
 
     pm = prog.module(f"{prog.package}.protocols")
@@ -274,6 +275,22 @@ def run(prog: Program, L: Ledger) -> None:
                     guarded = True
             L.check(guarded, "P1", "MonteCarlo.add_move:isinstance", f"{add.module.relpath}:{c.lineno}",
                     "isinstance test on the user move outside the `criteria is None` default lookup", "a move that inherits from nothing is rejected even with an explicit criteria", norm(c))
+
+    # ------------------------------------------------------------------ P5: "where it is executed"
+    from ..report import Ledger as _Ledger
+    from . import c09 as _c09
+
+    sub = _Ledger("C09", tier=L.tier, seed=L.seed, repo=L.repo, quiet=True, write_files=False)
+    try:
+        _c09.run(prog, sub)
+    except AnalysisError as exc:
+        raise AnalysisError(f"P5 (scheduler rules shared with C09): {exc}") from exc
+    sched_bad = [o for o in sub.obligations if o.status == "violation" and o.rule in ("M1", "M2", "M3")]
+    for o in sched_bad:
+        L.violation("P5", f"scheduler:{o.construct}", o.where, f"{o.detail} — a user move added with an explicit criteria is then not executed when the documented scheduling says it is due",
+                    o.witness or "a move with probability 0 and minimum_count 1 (forced only), or any move the extra condition excludes, is stored and serialised but never called", o.construct)
+    if not sched_bad:
+        L.ok("P5", "scheduler:every-due-move-offered", "src/quansino/mc/core.py", f"{sum(1 for o in sub.obligations if o.rule in ('M1', 'M2', 'M3'))} scheduler obligations")
 
     # ------------------------------------------------------------------ P2
     from ..minieval import FuncTok, PredUnsupported, Raises, ev as mev, run_stmts
